@@ -335,6 +335,55 @@ def run(tier="quick", seed=0, pid=None):
                                  "input": {"body": body, "server_version": 2.0 if server_v2 else 1.0, "instance": with_instance,
                                            "use_jsonclass": use_jc, "custom_dispatch": custom, "entry_kinds": kinds(body)},
                                  "observed": pr, "property": classify(pr)})
+    # custom dispatch functions (a handler's or an instance's _dispatch): the id and notification rules hold whether the
+    # function returns or raises (C03, C04)
+    for server_v2, ver, rid, method, batch in itertools.product((True, False), ("2.0", "<absent>"),
+                                                                 ("<absent>", None, "", 0, "x", 1.5), ("ok", "boom"), (False, True)):
+        if ver == "<absent>" and rid == "<absent>":
+            continue            # neither a version marker nor an id member: not a well-formed request (Appendix A), not judged here
+        env = Env()
+        d = SimpleJSONRPCDispatcher(config=C.Config(version=2.0 if server_v2 else 1.0))
+
+        def dm2(m_, p_, _env=env):
+            _env.log.append(("custom", (m_, p_)))
+            if m_ == "boom":
+                raise RuntimeError("kaboom")
+            return 42
+        e = {"method": method, "params": [1]}
+        if ver != "<absent>":
+            e["jsonrpc"] = ver
+        if rid != "<absent>":
+            e["id"] = rid
+        call = {"jsonrpc": "2.0", "id": "c", "method": "ok", "params": []}
+        body = json.dumps([call, e] if batch else e)
+        is_note = rid in ("<absent>", None, "")
+        n += 1
+        where = {"body": body, "server_version": 2.0 if server_v2 else 1.0, "custom_dispatch": True, "entry_kinds": kinds(body)}
+        try:
+            out = d._marshaled_dispatch(body, dm2)
+            rs = json.loads(out) if out else None
+            mine = (rs[1:] if isinstance(rs, list) else rs) if batch else ([] if rs is None else [rs])
+            if batch and not (isinstance(rs, list) and rs and rs[0].get("id") == "c"):
+                problems = ["batch: the call's response is missing or not first: %r" % (out[:200],)]
+            elif is_note:
+                problems = ["notification answered with %r" % (mine,)] if mine else []
+            elif len(mine) != 1 or not isinstance(mine[0], dict):
+                problems = ["batch: 1 responses expected for the entry, got %r" % (mine,)]
+            elif mine[0].get("id") != rid or type(mine[0].get("id")) is not type(rid):
+                problems = ["id %r echoed as %r" % (rid, mine[0].get("id"))]
+            elif method == "boom" and (mine[0].get("error") or {}).get("code") != CODES["internal"]:
+                problems = ["single: error code %r, expected %r" % ((mine[0].get("error") or {}).get("code"), CODES["internal"])]
+            elif method == "ok" and mine[0].get("result") != 42:
+                problems = ["single: unexpected error %r" % (mine[0],)]
+            else:
+                problems = []
+            if len(env.log) != (2 if batch else 1):
+                problems.append("%d calls made, %d expected" % (len(env.log), 2 if batch else 1))
+        except Exception as ex_:     # noqa
+            problems = ["raised %s: %s" % (type(ex_).__name__, ex_)]
+        for pr in problems[:2]:
+            failures.append({"name": "jsonrpclib.SimpleJSONRPCServer.SimpleJSONRPCDispatcher._marshaled_dispatch/bounded[reply_spec]",
+                             "input": where, "observed": pr, "property": "C02" if pr.startswith("raised") else classify(pr)})
     # ids that the class translator turns into objects
     for body, tag in extra_ids:
         env = Env()
